@@ -584,7 +584,12 @@ func dirsText(dirs []sx.S) string {
 		}
 		b.WriteString(" @" + nm)
 		if a, ok := dl[2].(string); !ok || a != "-" {
-			b.WriteString("(if: " + valueText(dl[2]) + ")")
+			if sx.Head(dl[2]) == "undecl" { // (undecl <value> <variable>): the condition and an argument no directive declares
+				ul := sx.List(dl[2])
+				b.WriteString("(if: " + valueText(ul[1]) + ", unless: " + valueText(ul[2]) + ")")
+			} else {
+				b.WriteString("(if: " + valueText(dl[2]) + ")")
+			}
 		}
 	}
 	return b.String()
